@@ -50,6 +50,7 @@ type J = world.J
 
 // Conn is one validator's connector.
 type Conn struct {
+	Start      *config.MinterConfig // the start configuration of this connector if it was set up anew (else the global one)
 	Val        string
 	Ctx        mctx.Context
 	StatusFile string
@@ -67,12 +68,11 @@ type MW struct {
 	Ref       []J // reference list of bridge events of the Minter chain, in chain order, in the model's event format
 	dir       string
 	enc       *json.Encoder
-	subs      []*mnt.Submission    // submissions seen during the running connector call
-	outs      []interface{}        // model form of the messages the running connector call committed
-	reinit    *config.MinterConfig // the start configuration of the connector that is being set up anew (no status file yet)
-	crashMode string               // "", "after", "before": the running call is a pass that gets killed in CommitTx
-	crashSnap *statusSnap          // the status file at the moment of the kill
-	Infra     string               // non-empty: the environment (not the code under test) failed
+	subs      []*mnt.Submission // submissions seen during the running connector call
+	outs      []interface{}     // model form of the messages the running connector call committed
+	crashMode string            // "", "after", "before": the running call is a pass that gets killed in CommitTx
+	crashSnap *statusSnap       // the status file at the moment of the kill
+	Infra     string            // non-empty: the environment (not the code under test) failed
 }
 
 func mx(addr string) string { return "Mx" + strings.ToLower(strings.TrimPrefix(addr, "0x")) }
@@ -153,7 +153,7 @@ func NewWith(cfg world.Cfg, evmChain string, out io.Writer) (*MW, error) {
 			MinterWallet:       &wallet.Wallet{PrivateKey: priv, PublicKey: pub, Address: "0x" + addr[2:]},
 			Logger:             log.NewNopLogger(),
 		}
-		c.Ctx.LoadStatus(c.StatusFile, connmain.Cfg().Minter)
+		c.Ctx.LoadStatus(c.StatusFile, mw.startOf(c))
 		mw.Conns[v.Name] = c
 	}
 	return mw, nil
@@ -184,11 +184,18 @@ func orchOf(cfg world.Cfg, val string) string {
 	return val
 }
 
+func (mw *MW) startOf(c *Conn) config.MinterConfig {
+	if c.Start != nil {
+		return *c.Start
+	}
+	return connmain.Cfg().Minter
+}
+
 // ------------------------------------------------------------------------------------------------ projection
 func (mw *MW) cursor(c *Conn) J {
 	st := connmain.Cfg().Minter
-	if mw.reinit != nil {
-		st = *mw.reinit
+	if c.Start != nil {
+		st = *c.Start // no status file: what the connector would load is its configured start
 	}
 	disk := J{"blk": st.StartBlock, "ev": st.StartEventNonce, "bat": st.StartBatchNonce, "vs": st.StartValsetNonce} // no file yet: the configured start
 	if bz, err := os.ReadFile(c.StatusFile); err == nil {
@@ -518,7 +525,7 @@ func (mw *MW) Exec(i int, a world.Act) {
 				}
 			}
 			os.Remove(c.StatusFile)
-			mw.reinit = &st
+			c.Start = &st
 			c.Ctx.LoadStatus(c.StatusFile, st)
 		}
 		cur0 := mw.cursor(c)
@@ -552,19 +559,18 @@ func (mw *MW) Exec(i int, a world.Act) {
 						os.Remove(c.StatusFile)
 					}
 				}
-				c.Ctx.LoadStatus(c.StatusFile, connmain.Cfg().Minter) // (the process is down until a ConnRestart)
+				c.Ctx.LoadStatus(c.StatusFile, mw.startOf(c)) // (the process is down until a ConnRestart)
 			case "ConnReinit":
 				ack = cosmos.GetLastMinterNonce(c.Ctx.OrcAddress.String(), c.Ctx.CosmosConn)
 				c.Ctx = minter.GetLatestMinterBlockAndNonce(c.Ctx, ack)
 			case "ConnRestart":
 				// the process starts again: the cursor comes from the status file, the hub tells the last event it saw from us
-				c.Ctx.LoadStatus(c.StatusFile, connmain.Cfg().Minter)
+				c.Ctx.LoadStatus(c.StatusFile, mw.startOf(c))
 				ack = cosmos.GetLastMinterNonce(c.Ctx.OrcAddress.String(), c.Ctx.CosmosConn)
 				c.Ctx = minter.GetLatestMinterBlockAndNonce(c.Ctx, ack)
 			}
 		})
 		mw.crashMode = ""
-		mw.reinit = nil
 		res := J{"out": "ok", "cur0": cur0, "cur1": mw.cursor(c), "head": uint64(len(mw.C.Blocks)), "ack": ack}
 		if timedOut {
 			res["out"] = "timeout"
